@@ -2485,7 +2485,7 @@ class BDD(dd._abc.BDD[_Ref]):
         # memoized ?
         if u in umap:
             r = umap[abs(u)]
-            if r <= 0:
+            if r == 0:
                 raise AssertionError(r)
             if u < 0:
                 r = -r
@@ -2496,8 +2496,12 @@ class BDD(dd._abc.BDD[_Ref]):
             v, succ, umap, level_map)
         q = self._load(
             w, succ, umap, level_map)
-        r = self.find_or_add(j, p, q)
-        if r <= 0:
+        # the levels of `p` and `q` need not be
+        # below level `j`, when the variable order of
+        # `self` differs from the order in the file
+        g = self.find_or_add(j, -1, 1)
+        r = self._ite(g, q, p)
+        if r == 0:
             raise AssertionError(r)
         umap[abs(u)] = r
         if u < 0:
